@@ -41,7 +41,8 @@ template <typename T> static std::vector<long long> project(hep::mc_result<T> co
 static rdesc pick(rng& g)
 {
     static long long const es[7] = {-8, -4, 0, 2, 4, 6, 8};            // -2 .. 2 in halves / quarters
-    static long long const vs[4][2] = {{1, 1}, {1, 4}, {4, 1}, {1, 1}};
+    // (the last three: errors 1/3, 2/3, 1/5 - weights that are not round numbers, so that every sum of the combination is rounded)
+    static long long const vs[7][2] = {{1, 1}, {1, 4}, {4, 1}, {1, 1}, {1, 9}, {4, 9}, {1, 25}};
     rdesc r;
     r.N = 2 + (long long) g.below(7);
     int z = (int) g.below(6);
@@ -49,7 +50,7 @@ static rdesc pick(rng& g)
     // some of the non-zero evaluations were not finite: the two counters differ (and are summed separately)
     r.fin = r.nz > 1 && g.below(3) == 0 ? r.nz - 1 - (long long) g.below((unsigned long long) (r.nz - 1)) : r.nz;
     r.e4 = es[g.below(7)];
-    int v = (int) g.below(4);
+    int v = (int) g.below(7);
     r.vn = vs[v][0]; r.vd = vs[v][1];
     if (r.nz == 0) { r.e4 = 0; r.vn = 0; r.vd = 1; } // a result without information is genuinely empty: sum = sumsq = 0
     // now and then the result of an iteration without any calls (its own estimate is 0 / 0; the variance-weighted combination ignores it)
